@@ -69,7 +69,11 @@ type sendRec struct {
 
 // Ledger implements types.BankKeeper and actiontypes.BankKeeperFee and serves the bridge models.
 // Keeper-level sends have no blocked-address check (as x/bank); module names resolve to their addresses.
+// When the ledger belongs to a World (root context set) its balances live in the context's store (verif.SideGet/Set), so
+// that a branch of the store — inside the module or around it — carries the bank state with it, as on a chain where
+// x/bank shares the multistore. Stand-alone ledgers (root nil) keep them in memory.
 type Ledger struct {
+	root   context.Context
 	e      []entry
 	supply []entry // addr unused
 	faults bool
@@ -89,43 +93,62 @@ func (l *Ledger) idx(addr sdk.AccAddress, denom string) int {
 }
 
 // (the index is computed first: idx may grow l.e, and Go leaves the order of "read l.e" and "call idx" open)
-func (l *Ledger) Bal(addr sdk.AccAddress, denom string) math.Int {
-	i := l.idx(addr, denom)
-	return l.e[i].amt
+func sideKeyOf(addr sdk.AccAddress, denom string) string { return string(addr) + "|" + denom }
+
+// balIn / setIn: the balance as seen from ctx (nil: the ledger's root context, or memory for a stand-alone ledger)
+func (l *Ledger) balIn(ctx context.Context, addr sdk.AccAddress, denom string) math.Int {
+	if l.root == nil {
+		i := l.idx(addr, denom)
+		return l.e[i].amt
+	}
+	if ctx == nil {
+		ctx = l.root
+	}
+	return verif.SideGet(ctx, sideKeyOf(addr, denom))
 }
 
-func (l *Ledger) Set(addr sdk.AccAddress, denom string, amt math.Int) {
-	i := l.idx(addr, denom)
-	l.e[i].amt = amt
+func (l *Ledger) setIn(ctx context.Context, addr sdk.AccAddress, denom string, amt math.Int) {
+	if l.root == nil {
+		i := l.idx(addr, denom)
+		l.e[i].amt = amt
+		return
+	}
+	if ctx == nil {
+		ctx = l.root
+	}
+	verif.SideSet(ctx, sideKeyOf(addr, denom), amt)
 }
 
-func (l *Ledger) GetBalance(_ context.Context, addr sdk.AccAddress, denom string) sdk.Coin {
+func (l *Ledger) Bal(addr sdk.AccAddress, denom string) math.Int      { return l.balIn(nil, addr, denom) }
+func (l *Ledger) Set(addr sdk.AccAddress, denom string, amt math.Int) { l.setIn(nil, addr, denom, amt) }
+
+func (l *Ledger) GetBalance(ctx context.Context, addr sdk.AccAddress, denom string) sdk.Coin {
 	l.reads++
-	return sdk.Coin{Denom: denom, Amount: l.Bal(addr, denom)}
+	return sdk.Coin{Denom: denom, Amount: l.balIn(ctx, addr, denom)}
 }
 
-func (l *Ledger) move(from, to sdk.AccAddress, amt sdk.Coins) error {
+func (l *Ledger) move(from, to sdk.AccAddress, amt sdk.Coins) error { return l.moveIn(nil, from, to, amt) }
+
+func (l *Ledger) moveIn(ctx context.Context, from, to sdk.AccAddress, amt sdk.Coins) error {
 	for _, c := range amt {
-		if l.Bal(from, c.Denom).LT(c.Amount) {
+		if l.balIn(ctx, from, c.Denom).LT(c.Amount) {
 			return errors.New("insufficient funds")
 		}
 	}
 	for _, c := range amt {
-		i := l.idx(from, c.Denom)
-		l.e[i].amt = l.e[i].amt.Sub(c.Amount)
-		j := l.idx(to, c.Denom)
-		l.e[j].amt = l.e[j].amt.Add(c.Amount)
+		l.setIn(ctx, from, c.Denom, l.balIn(ctx, from, c.Denom).Sub(c.Amount))
+		l.setIn(ctx, to, c.Denom, l.balIn(ctx, to, c.Denom).Add(c.Amount))
 		l.sends = append(l.sends, sendRec{string(from), string(to), c.Denom, c.Amount})
 	}
 	return nil
 }
 
-func (l *Ledger) SendCoins(_ context.Context, from, to sdk.AccAddress, amt sdk.Coins) error {
+func (l *Ledger) SendCoins(ctx context.Context, from, to sdk.AccAddress, amt sdk.Coins) error {
 	if l.faults && verif.Bool("fault-sendcoins") {
 		l.failed++
 		return errors.New("injected: SendCoins failed")
 	}
-	return l.move(from, to, amt)
+	return l.moveIn(ctx, from, to, amt)
 }
 
 func modAddr(name string) sdk.AccAddress {
@@ -135,12 +158,12 @@ func modAddr(name string) sdk.AccAddress {
 	return authtypes.NewModuleAddress(name)
 }
 
-func (l *Ledger) SendCoinsFromModuleToModule(_ context.Context, from, to string, amt sdk.Coins) error {
+func (l *Ledger) SendCoinsFromModuleToModule(ctx context.Context, from, to string, amt sdk.Coins) error {
 	if l.faults && verif.Bool("fault-module-to-module") {
 		l.failed++
 		return errors.New("injected: SendCoinsFromModuleToModule failed")
 	}
-	return l.move(modAddr(from), modAddr(to), amt)
+	return l.moveIn(ctx, modAddr(from), modAddr(to), amt)
 }
 
 // fixed accounts used by the harnesses
